@@ -1164,6 +1164,10 @@ class MixedElementList(ElementList[ModelElement]):
     def __getattr__(self, attr: str) -> _ListFilter[ModelElement]:
         if attr == "by_type":
             return _LowercaseListFilter(self, "__class__.__name__")
+        if attr == "exclude_types":
+            return _LowercaseListFilter(
+                self, "__class__.__name__", positive=False
+            )
         return super().__getattr__(attr)
 
     def __dir__(self) -> list[str]:  # pragma: no cover
